@@ -29,6 +29,14 @@ SEEDS = {
     "C07-pooled-transform-unordered-and-positional": ("C07", "BaseDiscretizer._transform_quantitative (two cooperating sites)", "n_jobs>1, at least two quantitative features, worker completion order different from submission order", "C07 quick, oracles row_wise_purity / repeatable_transform (SimPool completion order)", "caught"),
     "C10-unknown-values-replaced-across-columns": ("C10", "BaseDiscretizer._check_new_values", "a modality unseen for feature A (with default group) that is a known modality of feature B fitted alongside, in the same frame", "C10 quick, oracles same_output / same_rejection (subset vs all features)", "MISSED at first: injected unseen categories were novel tokens known to no feature; 'borrowed_category' injections (a value another qualitative feature knows) were added and the change is caught"),
     "C10-nan-unique-through-set": ("C10", "base_discretizers.nan_unique", "a numeric-valued ordinal feature whose ranking lacks several observed values (appended in set-iteration order): depends on PYTHONHASHSEED", "C10 quick, oracle values_orders (SimSet order inside the worker body)", "MISSED at first for two reasons: no numeric-valued ordinal features with incomplete rankings were generated, and SimSet decisions were switched off inside SimPool task bodies; both corrected and the change is caught"),
+    "C17-json-order-from-content-keys": ("C17", "serialization.json_serialize_values_orders (cooperating with GroupedList.replace_group_leader)", "an update_discretizer edit that swaps a leader on a group that is not last ('replace', or a downward 'group' of quantiles), then to_json + load", "C17 quick, oracle same_output_after_reload (O3)", "caught"),
+    "C17-summary-raw-labels-cached": ("C17", "BaseDiscretizer.summary (cache never invalidated by update_discretizer)", "summary() called before an edit and again after a quantitative 'group' edit", "C17 quick, oracles summary_after_edit / summary_shows_nan_in_its_group (observer calls interleaved with edits)", "caught"),
+    "C04-qualitative-labels-cached-at-first-transform": ("C04", "BaseDiscretizer._transform_qualitative (cache) + update_discretizer", "fit, transform, update_discretizer on a qualitative feature, transform again", "C04 quick, oracles closed_label_set / transform_equals_model after an edit", "caught"),
+    "C04-pooled-transform-imap-unordered-positional": ("C04", "BaseDiscretizer._transform_quantitative (two cooperating sites)", "n_jobs>1, two or more quantitative features, worker completion order different from the listing order", "C04 quick, oracle transform_equals_model on the pooled transform path (SimPool completion order)", "caught"),
+    "C19-infer-dtype-misses-string-in-integer-column": ("C19", "QuantitativeDiscretizer._prepare_data", "a string cell injected into a quantitative column whose other values are all integers without NaN (infer_dtype says 'mixed-integer')", "C19 quick, oracle must_raise_assertion (fault X3 on int-typed quantitative columns)", "caught"),
+    "C19-raw-column-check-before-casting-removed": ("C19", "BaseDiscretizer._check_data", "a fitted MulticlassCarver, then transform(X) with a raw feature column missing (reverts fix ad3f2b3)", "C19 quick: regression replay replays/regress/C19-multiclass-transform-missing-column-keyerror.json and exploration", "caught"),
+    "C05-all-nan-column-returns-before-check": ("C05", "transform_quantitative_feature", "a quantitative feature without missing values at fit and a transformed frame whose column holds only missing values (single-row NaN frame or small all-NaN frame)", "C05 quick, oracle must_reject (single-row frames with injected NaN)", "caught"),
+    "C05-unseen-values-cached-into-default-group": ("C05", "BaseDiscretizer._check_new_values (transform mutates fitted state)", "the same fitted object transforms the same unseen category twice, feature with a default group", "C05 quick, oracle closed_label_set (duplicated transform calls / repeated injected tokens in one session)", "caught"),
     "C07-nan-rows-by-label-used-as-positions": ("C07", "transform_quantitative_feature", "NaN in a quantitative feature at transform time and an index that is not 0..n-1 in order (subset, permutation, relabelled or string index)", "C07 quick, oracles row_wise_purity / transform_raised", "caught"),
 }
 
